@@ -11,11 +11,17 @@ LEVEL = 'proof'
 PROP = 'C10'
 MODULES = ['Netpoll.Props.C10', 'Netpoll.Tie.Poll']
 MANIFEST = dict(
-    text='Lean 4 invariant proof over an interleaving model of one poller slot through any number of owners: for every sequence of alloc / register / fetch / dispatch / end-of-batch / close steps and stale Release calls, '
-         'a fetched event is only ever dispatched to the callbacks of the owner it was fetched for (or dropped), no stale call takes a later owner\'s token, and a slot returns to the free chain only between batches with nothing installed. '
-         'The model is tied to fd_operator.go / fd_operator_cache.go / poll_default_linux.go by executing the poller loop body step by step on real connections and comparing every step with the model.',
-    note='partial: A-epoll-del (no event is fetched for a descriptor after EPOLL_CTL_DEL returned) and one-poller-per-cache are assumptions; the residual window of a Release racing the close of its own connection is outside the model (stale = the close has completed). The defect fixed by 1c26766 is kept as a Lean witness.',
-    technique='Lean 4 inductive invariant over a slot-reuse interleaving model + step-by-step trace conformance with the real poller code', design='§6 C10')
+    text='Lean 4 invariant proof over an interleaving model of one poller slot through any number of owners: for every sequence of alloc / register / fetch / dispatch / end-of-batch / close steps, stale Release calls and '
+         'hang-ups recorded in a batch and delivered later by the hang-up goroutine (at any point of any continuation: after the owner closed, after the slot was reused), '
+         'a fetched event is only ever dispatched to the callbacks of the owner it was fetched for (or dropped), a recorded hang-up only ever reaches the onHup of the owner it was recorded for, '
+         'no stale call takes a later owner\'s token, and a slot returns to the free chain only between batches with nothing installed. '
+         'The model is tied to fd_operator.go / fd_operator_cache.go / poll_default.go / poll_default_linux.go (a) by executing the poller loop body step by step on real connections and comparing every step with the model '
+         '(including several hang-ups dispatched in one handler call with the goroutine held at a blocked OnDisconnect while users close, the batch ends and new connections take the slots), '
+         '(b) by sequences in which the REAL defaultPoll.Wait is the poller (schedule point after epoll_wait through an overlay copy of sys_epoll_linux.go, p.Handler wrapped): closes placed between the return of its epoll_wait and its next statement, '
+         'opens placed between its fetch and its dispatch, and (c) by T-gen tie lemmas on the code the harness replaces or cannot schedule: the order fetch / dispatch / opcache.free of Wait\'s loop body and appendHup copying operator.OnHup into a list of funcs (Netpoll.Tie.Poll).',
+    note='partial: A-epoll-del (no event is fetched for a descriptor after EPOLL_CTL_DEL returned) and one-poller-per-cache are assumptions; the residual window of a Release racing the close of its own connection is outside the model (stale = the close has completed). '
+         'The defect fixed by 1c26766 and a hang-up queue that holds slots instead of the copied funcs are kept as Lean witnesses.',
+    technique='Lean 4 inductive invariant over a slot-reuse interleaving model + step-by-step trace conformance with the real poller code (harness as poller, and the real Wait loop as poller) + T-gen ties', design='§6 C10')
 
 def shard(binary, wd, seed, seqs, nops, hazard=False):
     os.makedirs(wd, exist_ok=True)
@@ -41,6 +47,7 @@ def analyse(wd, rc=0):
                 seen.add(t[2])
             if t[0] == 'dispatch' and 'ran=none' in i: res['skipped_events'] += 1
             if t[0] == 'stale': res['stale'] += 1
+            if t[0] == 'dispatchall' and ':hupq' in o: res['delayed'] = res.get('delayed', 0) + 1
         if len(si) > 1: res['finals'].add(si[-1])
         bad = next((k for k, l in enumerate(si) if l.startswith('panic') or l.startswith('BYSTANDER-FAIL') or l == 'hang'), None)
         d = lbtool.first_diff(si, sm)
@@ -84,8 +91,11 @@ def run(rep):
         reuse += r['reuse']; skipped += r['skipped_events']; stale += r['stale']
     rep.cov.update(evaluations=n, distinct_nontrivial=len(finals), step_histogram=dict(hist), slot_reuses=reuse, events_skipped_after_close=skipped, stale_calls=stale,
                    traces_validated_against_impl=n, samples=results[0]['samples'],
-                   rule='random step sequences over up to 6 real connections sharing one private poller whose loop body the harness executes step by step (fetch = real EpollWait, dispatch = real handler on one event, end of batch = opcache.free), '
-                        'with closes placed between fetch and dispatch, slot reuse by new connections and stale Release/Close/Next/Write/Flush on closed connections; every step compared with the Lean model; bystanders must receive exactly what was sent. distinct_nontrivial = distinct final slot observations')
+                   rule='random step sequences over up to 6 real connections sharing one private poller whose loop body the harness executes step by step (fetch = real EpollWait, dispatch = real handler on one event or on the rest of the batch, end of batch = opcache.free), '
+                        'with closes placed between fetch and dispatch, slot reuse by new connections, hang-up goroutines held at a blocked OnDisconnect and stale Release/Close/Next/Write/Flush on closed connections; every 4th sequence the real defaultPoll.Wait is the poller '
+                        '(closes after its epoll_wait returned, opens in front of its handler); every step compared with the Lean model; bystanders must receive exactly what was sent and stay open and registered. distinct_nontrivial = distinct final slot observations')
+    rep.cov['real_wait_rounds'] = hist.get('waitround', 0)
+    rep.cov['handler_calls_with_delayed_hangups'] = sum(r.get('delayed', 0) for r in results)
     rep.assumptions += ['A-epoll-del: no event is fetched for a descriptor after EPOLL_CTL_DEL returned', 'single harness goroutine: steps are atomic at the granularity of the model']
     genuine = [p for p in problems if p[2] == 'impl-violates-spec']
     others = [p for p in problems if p[2] != 'impl-violates-spec']
